@@ -97,6 +97,58 @@ fn main() {
                 std::process::exit(0);
             }
         }
+        Some("selftest") => {
+            // rainsim selftest determinism [n] : execute the first n cases of every claimed check
+            // twice in this process (on whichever worker thread picks them up) and print one digest
+            // line per case; bin/selftest runs this in several processes at worker counts 1 and
+            // 16 and diffs the outputs.
+            let n: u64 = args.get(3).and_then(|s| s.parse().ok()).unwrap_or(200);
+            let seed = batch::env_seed();
+            let props = ["C01", "C02", "C03", "C04", "C05", "C06", "C07", "C08", "C09", "C10", "C11", "C12", "C15", "C16", "C17"];
+            let mut lines: Vec<String> = vec![];
+            let mut mismatches = 0u64;
+            for prop in props {
+                let spec = checks::spec_for(prop).unwrap();
+                let per_prop = if matches!(prop, "C02" | "C16" | "C08" | "C15") { (n / 10).max(3) } else { n };
+                let next = std::sync::atomic::AtomicU64::new(0);
+                let out: std::sync::Mutex<Vec<(u64, String)>> = std::sync::Mutex::new(vec![]);
+                let bad = std::sync::atomic::AtomicU64::new(0);
+                std::thread::scope(|sc| {
+                    for _ in 0..batch::workers() {
+                        sc.spawn(|| loop {
+                            let i = next.fetch_add(1, std::sync::atomic::Ordering::Relaxed);
+                            if i >= per_prop {
+                                break;
+                            }
+                            let rs = batch::run_seed(seed, prop, i);
+                            let case = (spec.gen)(rs, i, Tier::Quick);
+                            let r1 = (spec.exec)(&case);
+                            let r2 = (spec.exec)(&case);
+                            let sig = |r: &exec::CaseResult| {
+                                let mut f: Vec<String> = r.findings.iter().map(|f| f.signature.clone()).collect();
+                                f.sort();
+                                format!("{:016x} steps={} findings={:?}", r.digest(), r.stats.steps, f)
+                            };
+                            let (a, b) = (sig(&r1), sig(&r2));
+                            if a != b {
+                                bad.fetch_add(1, std::sync::atomic::Ordering::Relaxed);
+                                eprintln!("NONDETERMINISM {} run {} seed {:016x}: {} vs {}", prop, i, rs, a, b);
+                            }
+                            out.lock().unwrap().push((i, format!("{} {} {}", prop, i, a)));
+                        });
+                    }
+                });
+                let mut v = out.into_inner().unwrap();
+                v.sort();
+                lines.extend(v.into_iter().map(|x| x.1));
+                mismatches += bad.load(std::sync::atomic::Ordering::Relaxed);
+            }
+            for l in &lines {
+                println!("{}", l);
+            }
+            eprintln!("selftest determinism: {} cases executed twice, {} mismatches", lines.len(), mismatches);
+            std::process::exit(if mismatches == 0 { 0 } else { 2 });
+        }
         _ => usage(),
     }
 }
